@@ -1573,7 +1573,12 @@ class Kconfig(object):
                                 self.report.add_record(DefaultValuesArea, sym_or_choice=sym, promptless=True)
                 # If value is supposed to be a default and symbol has a prompt, save it for later
                 elif any(node.prompt is not None for node in sym.nodes):
-                    sym.present_in_current_sdkconfig = True
+                    # The choice is present in sdkconfig through the member the file sets to y. What the member
+                    # evaluates to right now says nothing about that: entries its choice depends on (and the
+                    # deferred user-set choices) may not be loaded yet.
+                    sym._present_in_current_sdkconfig = True
+                    if sym.choice and val == "y":
+                        sym.choice.present_in_current_sdkconfig = True
                     if is_main_sdkconfig:
                         sym._sdkconfig_value = val
                         sym._loaded_as_default = True
